@@ -137,7 +137,7 @@ Fixpoint items_ok (ds : dataset) (i : nat) (wit : option (nat * Q)) (toks : list
 Definition spec_obs (ds : dataset) (c : cfg) (toks : list token) (i : nat)
            (wit : option (nat * Q)) (os : list obs_value) : bool :=
   match wit with
-  | None => Qltb (total_p c) 1                                   (* probability one: every sample is mixed *)
+  | None => Qltb (total_p c) 1 || negb (wants_sample toks)       (* probability one: every sample is mixed *)
   | Some (p, w) => (p <? ds_len ds)%nat && Qle_bool 0 w && Qle_bool w 1
   end
   && items_ok ds i wit toks os.
